@@ -270,8 +270,12 @@ func (self *AofFile) ReadHeader() error {
 	if err != nil {
 		return err
 	}
-	if n != 12 {
-		return errors.New("File is not AOF FIle")
+	for n < 12 {
+		nn, nerr := self.rbuf.Read(buf[n:])
+		if nerr != nil {
+			return nerr
+		}
+		n += nn
 	}
 	if string(buf[:8]) != "SLOCKAOF" {
 		return errors.New("File is not AOF File")
